@@ -154,6 +154,10 @@ def run(tier, seed):
     try:
         for i in range(n):
             cfg = sr.gen_run(rnd, thin=1, maxP=(10 if tier == "quick" else 25))
+            if cfg["kind"] == "rwmh" and i % 3 == 1:
+                # a target with bounds of its own around the starting model: proposals that overshoot are ordinary (rejected) proposals
+                cfg["box"] = [[v - rnd.choice([0.125, 0.5, 2.0]) for v in cfg["m0"]], [v + rnd.choice([0.125, 0.5, 2.0]) for v in cfg["m0"]]]
+                dist["bounded_rwmh"] = dist.get("bounded_rwmh", 0) + 1
             if i % 6 == 3 and cfg["kind"] == "hmc":
                 balanced_extremes(rnd, cfg)
                 dist["balanced_extreme_energies"] += 1
